@@ -178,6 +178,8 @@ class VM:
     # ------------------------------------------------------------------ memory
     def deref(self, m, r, what=''):
         if isinstance(r, Ref): return r.cell, list(r.path)
+        if isinstance(r, Struct) and r.ty == 'Box' and r.f and isinstance(r.f[0], Struct) and r.f[0].f and isinstance(r.f[0].f[0], Ref):
+            b = r.f[0].f[0]; return b.cell, list(b.path)
         raise VMError('deref of non-reference %r %s' % (r, what))
 
     def _walk(self, v, path):
@@ -275,6 +277,10 @@ class VM:
         if m: return int(m.group(1))
         if re.match(r'^-?[\d.]+(?:[eE][+-]?\d+)?f(64|32)$', t) or re.match(r'^-?(inf|NaN|nan)f(64|32)$', t) or re.match(r'^[+-]?inff64$', t):
             return self.alg.const_txt(t)
+        mi = re.match(r'^(?:(?:core|std)::)?(?:num::)?(?:<impl )?(u8|u16|u32|u64|usize|u128|i8|i16|i32|i64|isize|i128)>?::(MAX|MIN|BITS)$', t)
+        if mi:
+            ity = 'i64' if mi.group(1) == 'isize' else mi.group(1); lo, hi = INT_RANGES[ity]
+            return {'MAX': hi, 'MIN': lo, 'BITS': (hi - lo).bit_length()}[mi.group(2)]
         if t.startswith('f64::') or t.startswith('core::f64::') or t.startswith('std::f64::'):
             nm = t.split('::')[-1]
             import math
@@ -377,8 +383,8 @@ class VM:
             if op.startswith('Shl'):
                 r = a * (2 ** b)
                 if is_sym(r): return r % (hi - lo + 1) if lo == 0 else r
-                r = r & (hi - lo) if lo == 0 else r
-                return r
+                if lo == 0: return r & hi
+                return (r - lo) % (hi - lo + 1) + lo          # two's complement: bits shifted out are lost
             if is_sym(a): return a / (2 ** b)
             return a >> b
         if op in ('BitAnd', 'BitOr', 'BitXor'):
@@ -395,6 +401,9 @@ class VM:
         if isinstance(a, Fl) or isinstance(b, Fl):
             if not (isinstance(a, Fl) and isinstance(b, Fl)): raise VMError('mixed float/int %s %r %r' % (op, a, b))
             f = {'Add': A.add, 'Sub': A.sub, 'Mul': A.mul, 'Div': A.div, 'Lt': A.lt, 'Le': A.le, 'Gt': A.gt, 'Ge': A.ge, 'Eq': A.eq, 'Ne': A.ne}.get(op)
+            if f is None and op == 'Rem':
+                from .stdmodels import _frem
+                return _frem(self, a, b)
             if f is None: raise Unmodelled('float binop ' + op)
             return f(a, b)
         if op in ('Eq', 'Ne', 'Lt', 'Le', 'Gt', 'Ge'):
@@ -447,7 +456,9 @@ class VM:
         if kind == 'IntToFloat': return A.from_int(_b2i(v))
         if kind == 'FloatToInt':
             lo, hi = INT_RANGES[ty]; return A.to_int(v, lo, hi)
-        if kind == 'FloatToFloat': return v
+        if kind == 'FloatToFloat':
+            if ty == 'f32' and isinstance(v, Fl) and isinstance(v.v, float) and hasattr(A, 'to_f32'): return A.to_f32(v)
+            return v
         if kind == 'IntToInt':
             v = _b2i(v)
             if isinstance(v, Enum): v = v.idx
@@ -611,17 +622,32 @@ class VM:
                 out = h(self, m, callee, args)
                 if out is not NotImplemented:
                     return out
-        if re.match(r'^<\{closure@[^}]*\} as Fn(Mut|Once)?<.*>>::call(_mut|_once)?$', callee):
+        if re.match(r'^<.* as (?:std::ops::)?Fn(Mut|Once)?<.*>>::call(_mut|_once)?$', callee):
             # direct call of a closure value through the Fn* traits: arguments arrive as one tuple
             tup = args[1]; targs = list(tup.f) if isinstance(tup, Struct) else []
             return self.call_closure(m, args[0], targs)
-        from . import intrinsics, iters
-        out = iters.dispatch(self, m, callee, args)
-        if out is not NotImplemented: return out
-        out = intrinsics.dispatch(self, m, callee, args)
-        if out is not NotImplemented: return out
+        from . import intrinsics, iters, liter, stdmodels
+        # library models: the older, query-specific ones first (on the callee as printed, then on its canonical form - rustc prints a path as
+        # short as the set of visible items allows, so the same function may appear with or without `std::..::`), then the general ones
+        cc = canon(callee); first_err = None
+        for name in ((callee,) if cc == callee else (callee, cc)):
+            for disp in (iters.dispatch, intrinsics.dispatch):
+                try: out = disp(self, m, name, args)
+                except Unmodelled as e:
+                    first_err = first_err or e; continue
+                except VMError as e:
+                    if disp is iters.dispatch and str(e).startswith('into_iter of'): continue
+                    raise
+                if out is not NotImplemented: return out
+        for disp in (liter.dispatch, stdmodels.dispatch):
+            try: out = disp(self, m, cc, args)
+            except Unmodelled as e:
+                first_err = first_err or e; continue
+            if out is not NotImplemented: return out
         fn = self.resolve_callee(callee)
-        if fn is None: raise Unmodelled('callee %s (at %s)' % (callee, span))
+        if fn is None:
+            if first_err is not None: raise first_err
+            raise Unmodelled('callee %s (at %s)' % (callee, span))
         if fn.name in self.merge_returns:
             return self.merge_outcomes(list(self.exec_fn(m, fn, args)))
         return self.exec_fn(m, fn, args)
@@ -688,6 +714,8 @@ class VM:
         cv = clo; ref = None
         while isinstance(cv, Ref):
             ref = cv; cv = self.read_at(m, cv.cell, cv.path)
+        if isinstance(cv, Struct) and cv.ty == 'Box' and cv.f and isinstance(cv.f[0], Struct) and cv.f[0].f and isinstance(cv.f[0].f[0], Ref):
+            return self.call_closure(m, cv.f[0].f[0], args)      # Box<dyn Fn..>
         if isinstance(cv, FnItem):
             return self.call(m, cv.text, args)
         if not isinstance(cv, Closure): raise VMError('call of non-closure %r' % (cv,))
@@ -878,6 +906,16 @@ def _flatten(v):
         for x in v.items: out += _flatten(x)
         return out
     return [v]
+
+_CANON_STD = re.compile(r'\b(?:std|core|alloc)::(?:[a-z_][a-z_0-9]*::(?=[A-Za-z_]|<impl))*')
+_CANON_MOD = re.compile(r'(?<![\w:])(?:f64|f32|num|slice|str|option|result|vec|iter|mem|cmp|ops|array|char|ptr|string|boxed|rc|sync|cell|collections|time|convert|mpsc|hash_map|btree_map|vec_deque|fmt|borrow|clone|default|marker)::(?=[A-Za-z_]|<impl)')
+def canon(callee):
+    """callee text without std path qualifiers: `std::f64::<impl f64>::sqrt`, `core::f64::<impl f64>::sqrt` and `f64::<impl f64>::sqrt` all
+    become `<impl f64>::sqrt`; `<std::slice::Iter<'_, T> as Iterator>::map` becomes `<Iter<'_, T> as Iterator>::map`"""
+    c = _CANON_STD.sub('', callee)
+    prev = None
+    while prev != c: prev = c; c = _CANON_MOD.sub('', c)
+    return c
 
 def ret(m, v): return [(m, 'ret', v)]
 def panic(m, what): return [(m, 'panic', what)]
